@@ -28,6 +28,7 @@ def shapes(idws, crcs):
 
 
 class RouteWorld(E2EWorld):
+    prop = P
     name = "ROUTE"
 
     def __init__(self, **cfg):
@@ -112,6 +113,7 @@ class _Nil:
 
 
 class AckInactiveWorld(World):
+    prop = P
     name = "ACK-INACTIVE"
     uses_sandbox = False
 
